@@ -259,25 +259,27 @@ def text(n):
 
 
 class GuardSet(set):
-    """Set of raw (test text, label) pairs.  Membership and equality also accept the
-    spelling in which single-assignment locals are resolved (`counter` ->
-    `self.system.callstack.counter`), so that an extracted local or an alias does not
-    change what a rule sees; iteration and set algebra stay on the raw texts."""
+    """Set of (test text, label) pairs in the *resolved* spelling: pure alias locals that the canonical form
+    leaves in place (snapshots such as `live = self.manager._graph`, `pred = self.idxstack[-1]`) are replaced
+    by their definitions, so an extracted local does not change what a rule sees.  Membership and equality
+    also accept the raw spelling (`raw`)."""
 
     def __init__(self, pairs=(), alt=None):
-        super().__init__(pairs)
-        self.alt = dict(alt or {})          # raw pair -> resolved pair
+        alt = dict(alt or {})
+        super().__init__(alt.get(p, p) for p in pairs)
+        self.raw = set(pairs)
+        self.alt = alt
 
     def resolved(self):
-        return {self.alt.get(p, p) for p in set.__iter__(self)}
+        return set(self)
 
     def __contains__(self, pair):
-        return set.__contains__(self, pair) or pair in self.resolved()
+        return set.__contains__(self, pair) or pair in self.raw
 
     def __eq__(self, other):
         if isinstance(other, GuardSet):
             return set(self) == set(other)
-        return set(self) == other or self.resolved() == other
+        return set(self) == other or self.raw == other
 
     def __ne__(self, other):
         return not self.__eq__(other)
@@ -429,6 +431,53 @@ def origin(fi, expr, depth=4):
         expr = defs[expr.id]
         depth -= 1
     return expr
+
+
+def unsnapshot(fi, expr):
+    """(inner, True) when `expr` is a snapshot of an iterable - list(x), tuple(x), sorted(x), set(x), [*x],
+    (*x,), x.copy() - else (expr, False).  Locals are chased first."""
+    e = origin(fi, expr)
+    if isinstance(e, ast.Call):
+        if isinstance(e.func, ast.Name) and e.func.id in ("list", "tuple", "sorted", "set", "frozenset") \
+                and len(e.args) == 1 and not e.keywords:
+            return origin(fi, e.args[0]), True
+        if isinstance(e.func, ast.Attribute) and e.func.attr == "copy" and not e.args:
+            return origin(fi, e.func.value), True
+    if isinstance(e, (ast.List, ast.Tuple, ast.Set)) and len(e.elts) == 1 and isinstance(e.elts[0], ast.Starred):
+        return origin(fi, e.elts[0].value), True
+    return e, False
+
+
+def arms(fi, expr, depth=3):
+    """[(value expr, frozenset of (test text, 'T'|'F'))]: the alternatives of `expr` with conditional
+    expressions distributed out (through locals, binary operators and tuples); `() + x` is x."""
+    import copy
+    e = origin(fi, expr)
+    if isinstance(e, ast.IfExp) and depth:
+        t = norm(e.test)
+        neg = isinstance(e.test, ast.UnaryOp) and isinstance(e.test.op, ast.Not)
+        if neg:
+            t = norm(e.test.operand)
+        out = []
+        for v, g in arms(fi, e.body, depth - 1):
+            out.append((v, g | {(t, "F" if neg else "T")}))
+        for v, g in arms(fi, e.orelse, depth - 1):
+            out.append((v, g | {(t, "T" if neg else "F")}))
+        return out
+    if isinstance(e, ast.BinOp) and depth:
+        out = []
+        for lv, lg in arms(fi, e.left, depth - 1):
+            for rv, rg in arms(fi, e.right, depth - 1):
+                if any((t, "T") in lg and (t, "F") in rg or (t, "F") in lg and (t, "T") in rg for t, _ in lg | rg):
+                    continue
+                if isinstance(e.op, ast.Add) and isinstance(lv, ast.Tuple) and not lv.elts:
+                    out.append((rv, lg | rg))
+                elif isinstance(e.op, ast.Add) and isinstance(rv, ast.Tuple) and not rv.elts:
+                    out.append((lv, lg | rg))
+                else:
+                    out.append((ast.BinOp(left=lv, op=e.op, right=rv), lg | rg))
+        return out
+    return [(e, frozenset())]
 
 
 def _alias_expr(e):
